@@ -77,6 +77,28 @@ theorem good_some {c : Cfg} {s s' : State} (h : simple c s .some = some (.ok s')
     refine Good.popPush [v] [.some v] [] true (pop1_spec hp) (push_perm _ _) rfl (by simp [push_typed]) rfl ?_
     vals_tac
 
+theorem good_left {c : Cfg} {s s' : State} (t : Ty) (h : simple c s (.left t) = some (.ok s')) : Good s s' := by
+  simp only [simple, Option.some.injEq] at h
+  cases hp : s.pop1 with
+  | error e => simp [hp, bind, Except.bind] at h
+  | ok x =>
+    obtain ⟨v, s1⟩ := x
+    simp only [hp, bind, Except.bind, pure, Except.pure, Except.ok.injEq] at h
+    subst h
+    refine Good.popPush [v] [.left v t] [] true (pop1_spec hp) (push_perm _ _) rfl (by simp [push_typed]) rfl ?_
+    vals_tac
+
+theorem good_right {c : Cfg} {s s' : State} (t : Ty) (h : simple c s (.right t) = some (.ok s')) : Good s s' := by
+  simp only [simple, Option.some.injEq] at h
+  cases hp : s.pop1 with
+  | error e => simp [hp, bind, Except.bind] at h
+  | ok x =>
+    obtain ⟨v, s1⟩ := x
+    simp only [hp, bind, Except.bind, pure, Except.pure, Except.ok.injEq] at h
+    subst h
+    refine Good.popPush [v] [.right t v] [] true (pop1_spec hp) (push_perm _ _) rfl (by simp [push_typed]) rfl ?_
+    vals_tac
+
 theorem good_swap {c : Cfg} {s s' : State} (h : simple c s .swap = some (.ok s')) : Good s s' := by
   simp only [simple, Option.some.injEq] at h
   cases hp : s.pop2 with
@@ -131,6 +153,40 @@ theorem good_emptyBigMap {c : Cfg} {s s' : State} (k v : Ty) (h : simple c s (.e
     exact good_pushOnly _ (by simp [Val.consistent, Val.consistentList, nodupB]) (by simp [ticketSum, ticketSumList]) (by simp [noZero, noZeroList])
   · cases h
 
+theorem good_emptySet {c : Cfg} {s s' : State} (t : Ty) (h : simple c s (.emptySet t) = some (.ok s')) : Good s s' := by
+  simp only [simple, Option.some.injEq] at h
+  split at h
+  · simp only [pure, Except.pure, Except.ok.injEq] at h
+    subst h
+    exact good_pushOnly _ (by simp [Val.consistent, nodupB]) (by simp [ticketSum]) (by simp [noZero])
+  · cases h
+
+theorem good_lambda {c : Cfg} {s s' : State} (a b : Ty) (body : List Instr)
+    (h : simple c s (.lambda a b body) = some (.ok s')) : Good s s' := by
+  simp only [simple, Option.some.injEq, pure, Except.pure, Except.ok.injEq] at h
+  subst h
+  exact good_pushOnly _ (by simp [Val.consistent]) (by simp [ticketSum]) (by simp [noZero])
+
+/-- APPLY: the captured value ends up inside code; whatever tickets it held are gone for good -/
+theorem good_apply {c : Cfg} {s s' : State} (h : simple c s .apply = some (.ok s')) : Good s s' := by
+  simp only [simple, Option.some.injEq] at h
+  cases hp : s.pop2 with
+  | error e => simp [hp, bind, Except.bind] at h
+  | ok x =>
+    obtain ⟨l, lam, s1⟩ := x
+    simp only [hp, bind, Except.bind] at h
+    split at h
+    · rename_i lt rt b body
+      split at h
+      · cases h
+      · simp only [pure, Except.pure, Except.ok.injEq] at h
+        subst h
+        refine Good.popPush [l, .lam (.pair lt rt) b body] [.lam rt b _] [] true (pop2_spec hp) (push_perm _ _) rfl
+          (by simp [push_typed]) rfl ?_
+        intro _ _
+        exact ⟨LC_cons.mpr ⟨rfl, LC_nil⟩, fun k => by simp [LS_cons, LS_nil, ticketSum], fun _ => LN_cons.mpr ⟨rfl, LN_nil⟩⟩
+    · cases h
+
 mutual
   theorem pushable_noZero (bad : List String) (hb : bad.contains "ticket" = true) :
       ∀ v : Val, v.consistent = true → v.typeOf.all bad = true → noZero v = true
@@ -158,6 +214,16 @@ mutual
       have hv : vt.all bad = true := by
         cases big <;> simp [Val.typeOf, Ty.all] at ha <;> exact ha.2.2
       simp [noZero, pushable_noZeroList bad hb vt vals hc.2 hv]
+    | .left v _, hc, ha => by
+      simp only [Val.consistent] at hc
+      simp only [Val.typeOf, Ty.all, Bool.and_eq_true] at ha
+      simp [noZero, pushable_noZero bad hb v hc ha.2.1]
+    | .right _ v, hc, ha => by
+      simp only [Val.consistent] at hc
+      simp only [Val.typeOf, Ty.all, Bool.and_eq_true] at ha
+      simp [noZero, pushable_noZero bad hb v hc ha.2.2]
+    | .set _ _, _, _ => by simp [noZero]
+    | .lam _ _ _, _, _ => by simp [noZero]
   theorem pushable_noZeroList (bad : List String) (hb : bad.contains "ticket" = true) :
       ∀ (t : Ty) (xs : List Val), Val.consistentList t xs = true → t.all bad = true → noZeroList xs = true
     | _, [], _, _ => rfl
@@ -174,16 +240,14 @@ theorem good_push {c : Cfg} (ok : CfgOk c) {s s' : State} (t : Ty) (v : Val)
   · cases h
   · rename_i hp
     split at h
+    · rename_i hv
+      simp only [pure, Except.pure, Except.ok.injEq] at h
+      subst h
+      simp only [Bool.and_eq_true, beq_iff_eq] at hv
+      have hp' : v.typeOf.all c.nonPush = true := by
+        rw [hv.1.1]; simpa using hp
+      exact good_pushOnly v hv.1.2 (all_free _ ok.push_ticket v hv.1.2 hp') (pushable_noZero _ ok.push_ticket v hv.1.2 hp')
     · cases h
-    · split at h
-      · rename_i hv
-        simp only [pure, Except.pure, Except.ok.injEq] at h
-        subst h
-        simp only [Bool.and_eq_true, beq_iff_eq] at hv
-        have hp' : v.typeOf.all c.nonPush = true := by
-          rw [hv.1]; simpa using hp
-        exact good_pushOnly v hv.2 (all_free _ ok.push_ticket v hv.2 hp') (pushable_noZero _ ok.push_ticket v hv.2 hp')
-      · cases h
 
 theorem good_cons {c : Cfg} {s s' : State} (h : simple c s .cons = some (.ok s')) : Good s s' := by
   simp only [simple, Option.some.injEq] at h
